@@ -7,93 +7,7 @@
 (* the LAWS the data must satisfy and the lookup machine.                  *)
 (* Translations are integers in 24ths (24 = lcm of every tabulated         *)
 (* translation denominator: 2,3,4,6,8).                                    *)
-(* XfabTables is GENERATED into the check's work directory from the tree    *)
-(* under test (harness/export.py) and defines                              *)
-(*   Tables : sequence of records no, setting, name (character codes),     *)
-(*            crystal_system, Laue, nsymop, nuniq, cell_choice, syscond,   *)
-(*            rot, trans (24ths), bad, own_no                               *)
-(*   Dict   : sequence of records key (character codes), no                *)
-(* It is EXTENDed rather than bound through CONSTANT ... <- because TLC    *)
-(* re-evaluates an overridden constant on every reference (measured:       *)
-(* 3 min instead of 2 s), while a literal definition is evaluated once.    *)
-EXTENDS IntAlg, TLC, Json, XfabTables
-
-T24 == 24
-
----------------------------------------------------------------------------
-(* Group structure *)
-
-Op(tb, i) == [r |-> tb.rot[i], t |-> tb.trans[i]]
-NOps(tb) == Len(tb.rot)
-Ops(tb) == {Op(tb, i) : i \in 1..NOps(tb)}
-Rots(tb) == {tb.rot[i] : i \in 1..NOps(tb)}
-
-(* (R1,t1)(R2,t2) : x -> R1(R2 x + t2) + t1 *)
-Compose(a, b) == [r |-> MatMul(a.r, b.r), t |-> VMod(VAdd(MatVec(a.r, b.t), a.t), T24)]
-Identity == [r |-> I3, t |-> <<0,0,0>>]
-ApplyOp(o, p, N) == VMod(VAdd(MatVec(o.r, p), VScale(N \div T24, o.t)), N)   \* positions in 1/N, 24 | N
-
-LaueOrder(l) ==
-  CASE l = "-1" -> 2   [] l = "2/m" -> 4  [] l = "mmm" -> 8   [] l = "4/m" -> 8
-    [] l = "4/mmm" -> 16 [] l = "-3" -> 6  [] l = "-3m" -> 12  [] l = "-3m1" -> 12
-    [] l = "-31m" -> 12 [] l = "6/m" -> 12 [] l = "6/mmm" -> 24 [] l = "m-3" -> 24
-    [] l = "m-3m" -> 48 [] OTHER -> 0
-
-(* Crystal systems consistent with a Laue class *)
-SystemOfLaue(l) ==
-  CASE l = "-1" -> {"triclinic"} [] l = "2/m" -> {"monoclinic"} [] l = "mmm" -> {"orthorhombic"}
-    [] l \in {"4/m","4/mmm"} -> {"tetragonal"}
-    [] l \in {"-3","-3m","-3m1","-31m"} -> {"trigonal"}
-    [] l \in {"6/m","6/mmm"} -> {"hexagonal"}
-    [] l \in {"m-3","m-3m"} -> {"cubic"} [] OTHER -> {}
-
-(* Basis of the linear space of metric tensors conforming to the crystal   *)
-(* system and setting.  "R preserves the metric of every conforming cell"  *)
-(* is exactly: R' E R = E for every basis element E.                       *)
-MetricBasis(sys, choice) ==
-  CASE sys = "triclinic" ->
-         {Sym(<<1,0,0,0,0,0>>), Sym(<<0,1,0,0,0,0>>), Sym(<<0,0,1,0,0,0>>),
-          Sym(<<0,0,0,1,0,0>>), Sym(<<0,0,0,0,1,0>>), Sym(<<0,0,0,0,0,1>>)}
-    [] sys = "monoclinic" ->      \* unique axis b
-         {Sym(<<1,0,0,0,0,0>>), Sym(<<0,1,0,0,0,0>>), Sym(<<0,0,1,0,0,0>>), Sym(<<0,0,0,0,1,0>>)}
-    [] sys = "orthorhombic" ->
-         {Sym(<<1,0,0,0,0,0>>), Sym(<<0,1,0,0,0,0>>), Sym(<<0,0,1,0,0,0>>)}
-    [] sys = "tetragonal" -> {Sym(<<1,1,0,0,0,0>>), Sym(<<0,0,1,0,0,0>>)}
-    [] sys \in {"trigonal","hexagonal"} /\ choice # "rhombohedral" ->
-         {Sym(<<2,2,0,0,0,-1>>), Sym(<<0,0,1,0,0,0>>)}      \* a = b, gamma = 120
-    [] sys = "trigonal" /\ choice = "rhombohedral" ->
-         {Sym(<<1,1,1,0,0,0>>), Sym(<<0,0,0,1,1,1>>)}       \* a = b = c, alpha = beta = gamma
-    [] sys = "cubic" -> {Sym(<<1,1,1,0,0,0>>)}
-    [] OTHER -> {}
-
-PreservesMetric(R, E) == MatMul(Transpose(R), MatMul(E, R)) = E
-
-CentringTranslations(tb) == {o.t : o \in {p \in Ops(tb) : p.r = I3}}
-
-(* The laws, each named so that a violation is localised. *)
-Laws(tb) ==
-  LET ops == Ops(tb)  rots == Rots(tb)  n == NOps(tb)  basis == MetricBasis(tb.crystal_system, tb.cell_choice) IN
-  [ wellformed   |-> /\ Len(tb.bad) = 0 /\ Len(tb.trans) = n /\ Len(tb.syscond) = 26
-                     /\ \A i \in 1..n : Abs(Det(tb.rot[i])) = 1,
-    count        |-> n = tb.nsymop,
-    identity     |-> Identity \in ops,
-    nodup        |-> Cardinality(ops) = n,
-    closed       |-> \A a \in ops : \A b \in ops : Compose(a, b) \in ops,
-    inverses     |-> \A a \in ops : \E b \in ops : Compose(a, b) = Identity,
-    nuniq        |-> /\ tb.nuniq \in 1..n
-                     /\ Cardinality({tb.rot[i] : i \in 1..Min(tb.nuniq, n)}) = tb.nuniq
-                     /\ {tb.rot[i] : i \in 1..Min(tb.nuniq, n)} = rots,
-    centring     |-> tb.nsymop = tb.nuniq * Cardinality(CentringTranslations(tb)),
-    laue         |-> /\ LaueOrder(tb.Laue) > 0
-                     /\ Cardinality(rots \cup {MatNeg(R) : R \in rots}) = LaueOrder(tb.Laue),
-    system       |-> tb.crystal_system \in SystemOfLaue(tb.Laue),
-    metric       |-> /\ basis # {}
-                     /\ \A R \in rots : \A E \in basis : PreservesMetric(R, E),
-    number       |-> tb.own_no = tb.no /\ tb.no \in 1..230 ]
-
-LawNames == {"wellformed","count","identity","nodup","closed","inverses","nuniq","centring",
-             "laue","system","metric","number"}
-Failed(tb) == LET l == Laws(tb) IN {nm \in LawNames : ~l[nm]}
+EXTENDS SgOps, Json
 
 ---------------------------------------------------------------------------
 (* Text handling: names are sequences of character codes. *)
@@ -118,8 +32,6 @@ Spell(k, v) ==
 
 CodeR == 114   \* "r"
 
-HasTable(no, setting) == \E i \in 1..Len(Tables) : Tables[i].no = no /\ Tables[i].setting = setting
-TableIndex(no, setting) == CHOOSE i \in 1..Len(Tables) : Tables[i].no = no /\ Tables[i].setting = setting
 
 ---------------------------------------------------------------------------
 (* The lookup machine, one action per step of sg.__init__. *)
